@@ -231,32 +231,42 @@ Section Wrapper.
 
   Definition not_a_rule (lines : list string) (off : nat) (x : node) : Prop := snd (PR lines off x) = true.
 
-  (** [wrapper lines off S pS m parent]: the node [m] (parsed with parent [parent]) contains the node [S]
-      (parsed with parent [pS]) under mapping levels (any key), sequence levels (not directly under a
-      `groups` key; the items on the path and their siblings are not rules themselves) and
-      document/alias levels; every sibling subtree contains no rules. *)
-  Inductive wrapper (lines : list string) (off : nat) (S : node) (pS : option node) : node -> option node -> Prop :=
-  | W_hole : wrapper lines off S pS S pS
-  | W_map m parent k inner before after :
-      wrapper lines off S pS inner (Some k) ->
+  (** [wrapper linesS offS S pS lines off m parent]: the node [m] (parsed with parent [parent], content lines
+      [lines], line offset [off]) contains the node [S] (parsed with parent [pS], content lines [linesS], offset
+      [offS]) under mapping levels (any key), sequence levels (not directly under a `groups` key; the items on the
+      path and their siblings are not rules themselves), document/alias levels, and YAML-in-YAML levels (a literal
+      block scalar whose value pint re-parses: the embedded document is parsed against the lines of the VALUE with
+      the scalar's line added to the offset); every sibling subtree contains no rules. *)
+  Inductive wrapper (linesS : list string) (offS : nat) (S : node) (pS : option node)
+    : list string -> nat -> node -> option node -> Prop :=
+  | W_hole : wrapper linesS offS S pS linesS offS S pS
+  | W_map lines off m parent k inner before after :
+      wrapper linesS offS S pS lines off inner (Some k) ->
       n_kind m = KMapping ->
       mapping_nodes m = before ++ (k, inner) :: after ->
       (forall k' v', In (k', v') (before ++ after) -> no_rules_in lines off v' (Some k')) ->
-      wrapper lines off S pS m parent
-  | W_seq m parent inner before after :
-      wrapper lines off S pS inner (Some m) ->
+      wrapper linesS offS S pS lines off m parent
+  | W_seq lines off m parent inner before after :
+      wrapper linesS offS S pS lines off inner (Some m) ->
       n_kind m = KSequence ->
       parent_is parent "groups" = false ->
       unpack_nodes m = before ++ inner :: after ->
       not_a_rule lines off inner ->
       (forall x, In x (before ++ after) -> not_a_rule lines off x /\ no_rules_in lines off x (Some m)) ->
-      wrapper lines off S pS m parent
-  | W_other m parent inner before after :
-      wrapper lines off S pS inner (Some m) ->
+      wrapper linesS offS S pS lines off m parent
+  | W_other lines off m parent inner before after :
+      wrapper linesS offS S pS lines off inner (Some m) ->
       n_kind m = KDocument \/ n_kind m = KAlias \/ n_kind m = KZero ->
       unpack_nodes m = before ++ inner :: after ->
       (forall x, In x (before ++ after) -> no_rules_in lines off x (Some m)) ->
-      wrapper lines off S pS m parent.
+      wrapper linesS offS S pS lines off m parent
+  | W_embedded lines off m parent e :
+      wrapper linesS offS S pS (split_lines (n_value m)) (off + n_line m) e (Some m) ->
+      n_kind m = KScalar ->
+      (Nat.ltb 1 (count_char nlc (n_value m)) && negb (String.eqb (n_value m) (join_lines lines))
+       && Nat.ltb (n_line m) (List.length lines))%bool = true ->
+      n_embedded m = Some e ->
+      wrapper linesS offS S pS lines off m parent.
 
   Lemma seq_all_empty fuel lines off m : forall l,
     (forall x, In x l -> not_a_rule lines off x) ->
@@ -276,16 +286,17 @@ Section Wrapper.
   Qed.
 
   (** Wrapper invariance: any completed run on the wrapped node finds exactly the rules a completed run finds in the hole. *)
-  Theorem wrapper_invariance lines off S pS m parent :
-    wrapper lines off S pS m parent ->
+  Theorem wrapper_invariance linesS offS S pS lines off m parent :
+    wrapper linesS offS S pS lines off m parent ->
     forall f1 f2 gsS gs,
-      PN f1 lines off S pS None = Some gsS ->
+      PN f1 linesS offS S pS None = Some gsS ->
       PN f2 lines off m parent None = Some gs ->
       all_rules gs = all_rules gsS.
   Proof.
-    induction 1 as [| m parent k inner before after Hw IH Hk Hm Hsib
-                    | m parent inner before after Hw IH Hk Hp Hu Hin Hsib
-                    | m parent inner before after Hw IH Hk Hu Hsib]; intros f1 f2 gsS gs H1 H2.
+    induction 1 as [| lines off m parent k inner before after Hw IH Hk Hm Hsib
+                    | lines off m parent inner before after Hw IH Hk Hp Hu Hin Hsib
+                    | lines off m parent inner before after Hw IH Hk Hu Hsib
+                    | lines off m parent e Hw IH Hk Hcond Hem]; intros f1 f2 gsS gs H1 H2.
     - now rewrite (parse_node_agree _ _ _ _ _ _ _ _ _ H1 H2).
     - destruct f2 as [|f2]; [discriminate|]. rewrite PNS in H2. rewrite Hk in H2. cbn zeta in H2. rewrite Hm in H2.
       destruct (concat_opt_map_app_inv _ _ _ _ _ H2) as (ga & gx & gb & Ea & Ex & Eb & ->).
@@ -315,6 +326,8 @@ Section Wrapper.
       rewrite (concat_opt_no_rules _ _ _ Ea), (concat_opt_no_rules _ _ _ Eb); [now rewrite app_nil_r| |].
       + intros c g Hc Hg. apply (Hsib c (in_or_app _ _ _ (or_intror Hc)) _ _ Hg).
       + intros c g Hc Hg. apply (Hsib c (in_or_app _ _ _ (or_introl Hc)) _ _ Hg).
+    - destruct f2 as [|f2]; [discriminate|]. rewrite PNS in H2. rewrite Hk in H2. cbn zeta in H2.
+      rewrite Hcond, Hem in H2. exact (IH _ _ _ _ H1 H2).
   Qed.
 
   (** The parent key of a rule list only matters through the reserved names: under any two parents other
@@ -346,10 +359,10 @@ Section Wrapper.
   Qed.
 
   (** File level: the wrapped document may be preceded and followed by documents that contain no rules. *)
-  Theorem wrapper_invariance_file all_lines yerr before m nl after S pS f1 gsS :
+  Theorem wrapper_invariance_file all_lines yerr before m nl after linesS offS S pS f1 gsS :
     (forall x k, In (x, k) (before ++ after) -> no_rules_in (firstn k all_lines) 0 x None) ->
-    wrapper (firstn nl all_lines) 0 S pS m None ->
-    PN f1 (firstn nl all_lines) 0 S pS None = Some gsS ->
+    wrapper linesS offS S pS (firstn nl all_lines) 0 m None ->
+    PN f1 linesS offS S pS None = Some gsS ->
     exists f, parse_relaxed plines metric_ok lname_ok lvalue_ok all_lines (before ++ (m, nl) :: after) yerr = Some f /\
               all_rules (f_groups f) = all_rules gsS.
   Proof.
@@ -357,7 +370,7 @@ Section Wrapper.
     destruct (parse_relaxed_loop_spec all_lines yerr (before ++ (m, nl) :: after) []) as (gs & E1 & E2).
     rewrite E1. eexists. split; [reflexivity|]. cbn [f_groups app].
     destruct (concat_opt_map_app_inv _ _ _ _ _ E2) as (ga & gx & gb & Ea & Ex & Eb & ->). cbn [fst snd] in Ex.
-    rewrite !all_rules_app, (wrapper_invariance _ _ _ _ _ _ Hw _ _ _ _ H1 Ex).
+    rewrite !all_rules_app, (wrapper_invariance _ _ _ _ _ _ _ _ Hw _ _ _ _ H1 Ex).
     rewrite (concat_opt_no_rules _ _ _ Ea), (concat_opt_no_rules _ _ _ Eb); [now rewrite app_nil_r| |].
     - intros [x k] g Hc Hg. apply (Hsib x k (in_or_app _ _ _ (or_intror Hc)) _ _ Hg).
     - intros [x k] g Hc Hg. apply (Hsib x k (in_or_app _ _ _ (or_introl Hc)) _ _ Hg).
